@@ -381,6 +381,9 @@ func init() {
 			// test case is not "the same failure" as the recorded one
 			"((draw n (i 0 1000)) (cleanup (if (lt n 100) (skip))) (if (ge n 500) (error 1)))",
 			"((draw n (u 0 18446744073709551615)) (draw b (bool)) (cleanup (if (lt n 7) (skip))) (if (ge n 1000) (fail)))",
+			// chained filters: a rejected attempt of the inner filter begins where the rejected attempt of the outer one begins
+			"((draw a (filter (filter (u 0 1000) (mod 3 0)) (ge 400))) (draw b (u 0 1000)) (if (mod b 2 1) (fatal 2)) (if (ge a 700) (fatal 1)))",
+			"((draw a (filter (filter (filter (i 0 99) (mod 2 0)) (ge 30)) (lt 90))) (draw b (i 0 99)) (draw c (bool)) (if (ge b 50) (error 1)) (if (lt b 50) (if (ge a 60) (fatal 2))))",
 		}
 		for i := 0; i < 60*scale; i++ {
 			var prog *SX
